@@ -28,8 +28,14 @@ const helperCases = 64
 
 const helperMemGiB = 3
 
-// helperDeadline: how long the worker waits for the helper's answer (the watchdog of the engine for a case of this property is 20 s).
+// helperDeadline: how long the worker waits for the helper's answer. The clock that decides is the helper's own
+// CPU time, not the wall: when the wall deadline expires and the helper has had less than helperCPU of processor time
+// (the machine is busy with other work: the helper was starved, not spinning), the wait goes on until it has had that
+// much or helperWallMax has passed. A verdict "unbounded" therefore never depends on what else runs on the machine
+// (S1: no short wall-clock oracle); a case that blocks without using the processor costs helperWallMax.
 const helperDeadline = 8 * time.Second
+const helperCPU = 4 * time.Second
+const helperWallMax = 60 * time.Second
 
 type helper struct {
 	cmd    *exec.Cmd
@@ -127,8 +133,16 @@ func runIsolated(spec, sigPrefix, what string, fresh bool) (res engine.Result) {
 		res.Fail("harness:helper-write", err.Error())
 		return
 	}
-	select {
-	case line, ok := <-h.lines:
+	type answer struct {
+		line string
+		ok   bool
+	}
+	got := make(chan answer, 1)
+	go func() { l, ok := <-h.lines; got <- answer{l, ok} }()
+	a, back := engine.WaitBounded(h.cmd.Process.Pid, got, helperDeadline, helperCPU, helperWallMax, func() { res.Hit("helper-wait-extended") })
+	switch {
+	case back:
+		line, ok := a.line, a.ok
 		if ok {
 			if jerr := json.Unmarshal([]byte(line), &res); jerr != nil {
 				res = engine.Result{}
@@ -151,9 +165,9 @@ func runIsolated(spec, sigPrefix, what string, fresh bool) (res engine.Result) {
 		}
 		res.Fail(sigPrefix+" kind="+kind, what+" => the process died: "+firstLines(stderr, 6))
 		res.Outcome = kind
-	case <-time.After(helperDeadline):
+	default:
 		h.stop()
-		res.Fail(sigPrefix+" kind=unbounded", fmt.Sprintf("%s => no outcome within %s in a process of its own (3 GiB address space)", what, helperDeadline))
+		res.Fail(sigPrefix+" kind=unbounded", fmt.Sprintf("%s => no outcome within %s (and %s of processor time) in a process of its own (3 GiB address space)", what, helperDeadline, helperCPU))
 		res.Outcome = "unbounded"
 	}
 	res.Nontrivial = true
@@ -184,7 +198,7 @@ func serveHelper() (res engine.Result) {
 		}
 		spec := strings.TrimSuffix(line, "\n")
 		// the parent gives up after helperDeadline; never outlive it by much (an orphan must not spin for ever)
-		watchdog := time.AfterFunc(3*helperDeadline, func() { os.Exit(3) })
+		watchdog := time.AfterFunc(helperWallMax+helperDeadline, func() { os.Exit(3) })
 		debug.SetMaxStack(defaultStack)
 		r := engine.SafeExec(&engine.Prop{Exec: execCase}, spec)
 		watchdog.Stop()
